@@ -5,6 +5,7 @@ import (
 	"context"
 	"fmt"
 	"strings"
+	"verif/ref/poolpoison"
 
 	"google.golang.org/protobuf/reflect/protoreflect"
 	"google.golang.org/protobuf/types/dynamicpb"
@@ -181,6 +182,7 @@ func protoCase(cc *pj.ConvCase) core.Case {
 			trig := cc.Focus
 			var js, back, js2 []byte
 			var e1, e2, e3 error
+			intoDiff := ""
 			pi := core.Catch(func() {
 				pc := p2j.NewBinaryConv(conv.Options{})
 				js, e1 = pc.Do(ctx, c.In, in)
@@ -193,7 +195,21 @@ func protoCase(cc *pj.ConvCase) core.Case {
 					return
 				}
 				js2, e3 = pc.Do(ctx, c.In, back)
+				// the same composition through DoInto (results in the callers' buffers), the intermediate results consumed
+				// only AFTER the next conversion has run: j' = p2j(m); b' = j2p(j'); j'' = p2j(b') must still hold
+				var jb, bb, jb2 []byte
+				if pc.DoInto(ctx, c.In, in, &jb) == nil && cv.DoInto(ctx, c.In, jb, &bb) == nil && pc.DoInto(ctx, c.In, bb, &jb2) == nil {
+					poolpoison.ConvBuffers(2)
+					if !bytes.Equal(jb, js) || !bytes.Equal(bb, back) || !bytes.Equal(jb2, js2) {
+						intoDiff = fmt.Sprintf("Do: %s / %x / %s\nDoInto (read after the later conversions): %s / %x / %s", js, back, js2, jb, bb, jb2)
+					}
+				} else {
+					intoDiff = "DoInto fails where Do succeeds"
+				}
 			})
+			if pi == nil && intoDiff != "" {
+				r.Add("protobuf|"+trig+"|DoInto-results-differ-from-Do-after-later-conversions", "%s: %s", cc.What, intoDiff)
+			}
 			switch {
 			case pi != nil:
 				r.Add("protobuf|"+trig+"|panic@"+pi.Site+":"+core.PanicClass(pi.Val), "%s: panic %s\ninput %x json %s\n%s", cc.What, pi.Val, in, js, pi.Stack)
